@@ -51,6 +51,8 @@ type BatchCfg struct {
 	WarmC    int   // > 0: the same node object first performs a run with this concurrency, then is reconfigured
 	WarmN    int   // > 0: ... and with this retry budget
 	PrepN    bool  // the node is constructed with another retry budget; its own prep callback sets the real one
+	PrepC    bool  // ... with another concurrency level
+	PostBE   bool  // post fails with an empty *flyt.BatchError (the library's own aggregate type) as its error value
 	NilItem  int   // > 0: this item is a Result holding nil (it is processed like any other item)
 	Procs    int   // > 0: run the scenario with GOMAXPROCS limited to this value
 }
@@ -61,7 +63,7 @@ func parseBatchCfg(m map[string]any) BatchCfg {
 		PostErr: asBool(m["posterr"]), Gated: asBool(m["gated"]), Strict: asBool(m["strict"]),
 		Shape: asStr(m["shape"]), ExSty: asStr(m["exsty"]), Via: asStr(m["via"]), Sched: asStr(m["sched"]),
 		CtxKind: asStr(m["ctxkind"]), GenSeed: asStr(m["genseed"]), WarmC: asInt(m["warmc"]), Procs: asInt(m["procs"]), After: asBool(m["after"]), WarmN: asInt(m["warmn"]),
-		PrepN: asBool(m["prepn"]), NilItem: asInt(m["nilitem"])}
+		PrepN: asBool(m["prepn"]), NilItem: asInt(m["nilitem"]), PrepC: asBool(m["prepc"]), PostBE: asBool(m["postbe"])}
 	for _, a := range asList(m["barrier"]) {
 		c.Barrier = append(c.Barrier, asInt(a))
 	}
@@ -112,7 +114,7 @@ func (c BatchCfg) toJSON() map[string]any {
 	return map[string]any{"N": c.N, "n": c.Items, "c": c.C, "stopmode": c.StopMode, "w": c.W, "fb": c.Fb, "ctx0": c.Ctx0,
 		"cancel": c.Cancel, "acts": acts, "outs": outs, "preperr": c.PrepErr, "posterr": c.PostErr, "gated": c.Gated,
 		"strict": c.Strict, "shape": c.Shape, "exsty": c.ExSty, "via": c.Via, "sched": c.Sched, "ctxkind": c.CtxKind, "genseed": c.GenSeed,
-		"barrier": bar, "warmc": c.WarmC, "erritems": eit, "procs": c.Procs, "after": c.After, "warmn": c.WarmN, "prepn": c.PrepN, "nilitem": c.NilItem}
+		"barrier": bar, "warmc": c.WarmC, "erritems": eit, "procs": c.Procs, "after": c.After, "warmn": c.WarmN, "prepn": c.PrepN, "nilitem": c.NilItem, "prepc": c.PrepC, "postbe": c.PostBE}
 }
 
 // ---- script ----------------------------------------------------------------
@@ -364,6 +366,12 @@ func (b *batchRun) exec(arg Obs) (any, error, error) {
 			}
 			time.Sleep(150 * time.Microsecond) // ... and an in-flight item succeeds shortly afterwards
 		}
+	case b.cfg.Sched == "free0":
+		// no pause at all
+	case b.cfg.Sched == "waitcancel":
+		if item == 2 {
+			time.Sleep(10 * time.Millisecond) // item 1 is waiting between its attempts by now
+		}
 	case b.cfg.Sched == "hold":
 		// every attempt takes three times the retry wait: an item that is waiting between two attempts finds
 		// its neighbours still busy when the wait is over
@@ -603,6 +611,9 @@ func (b *batchRun) build() *flyt.BatchNodeBuilder {
 		bn.WithMaxRetries(cfg.N%3 + 2 - cfg.N%2) // not the real budget: the node's own prep sets that while the node runs
 	}
 	bn.WithBatchConcurrency(cfg.C)
+	if cfg.PrepC {
+		bn.WithBatchConcurrency((cfg.C + 3) % 5) // not the real level: the node's own prep sets that while the node runs
+	}
 	if cfg.StopMode || cfg.ModeSet {
 		bn.WithBatchErrorHandling(!cfg.StopMode)
 	}
@@ -612,6 +623,9 @@ func (b *batchRun) build() *flyt.BatchNodeBuilder {
 			b.log(ev)
 			if cfg.PrepN {
 				bn.WithMaxRetries(cfg.N)
+			}
+			if cfg.PrepC {
+				bn.WithBatchConcurrency(cfg.C)
 			}
 			if !ok {
 				return nil, b.reg.Err(prepErrTok)
@@ -808,6 +822,9 @@ func runBatchScenario(cfg BatchCfg, sc *BatchScript, seed int64) []Event {
 	reg.NoTypedNil = true
 	reg.RunCtxKind = cfg.CtxKind
 	reg.MixFlavour = true
+	if cfg.PostBE {
+		reg.SetErr(postErrTok, &flyt.BatchError{})
+	}
 	b := &batchRun{settle: batchSettle, cfg: cfg, sc: sc, reg: reg, store: flyt.NewSharedStore(), gids: map[int64]int{}, att: map[int]int{},
 		parkCh: make(chan struct{}, 1), done: make(chan struct{}), rng: rand.New(rand.NewSource(seed)), barrier: make(chan struct{})}
 	b.barrierN = cfg.C
@@ -836,7 +853,9 @@ func runBatchScenario(cfg BatchCfg, sc *BatchScript, seed int64) []Event {
 			bn.WithMaxRetries(cfg.WarmN)
 		}
 		flyt.Run(context.Background(), bn, b.store)
-		bn.WithBatchConcurrency(cfg.C)
+		if !cfg.PrepC {
+			bn.WithBatchConcurrency(cfg.C)
+		}
 		bn.WithMaxRetries(cfg.N)
 		b.warm = false
 		b.mu.Lock()
@@ -851,6 +870,19 @@ func runBatchScenario(cfg BatchCfg, sc *BatchScript, seed int64) []Event {
 	case "cause":
 		c2, cancel := context.WithCancelCause(context.Background())
 		ctx, b.cancel = c2, func() { cancel(fmt.Errorf("service shutting down")) }
+	case "timeout":
+		// a real deadline, 150 ms from now (scenarios whose retry wait is longer than that)
+		c2, cancel := context.WithTimeout(context.Background(), 150*time.Millisecond)
+		ctx, b.cancel = c2, cancel
+		go func() {
+			select {
+			case <-c2.Done():
+				if c2.Err() == context.DeadlineExceeded {
+					b.log(Event{"ev": "cancel", "cancel": true})
+				}
+			case <-b.done:
+			}
+		}()
 	default:
 		c2, cancel := context.WithCancel(context.Background())
 		ctx, b.cancel = c2, cancel
